@@ -497,16 +497,18 @@ func exemptZone(s encSpec, d []byte, pos int, x byte) string {
 			if s.mode == "sign" && (off == 3 || off == 12 || off == 1 || (pos > p.start && pos < p.bodyStart)) {
 				return "ops-unchecked-octet"
 			}
-		case 11: // literal data of an unencrypted signed message: format octet, file name, date are not signed
+		case 11: // literal data of an unencrypted signed message: format octet, file name, date are not signed —
+			// neither directly nor through a partial-length octet that only re-frames those metadata octets
+			// (e.g. E1 → E0 before the last date octets: the date changes, body and signature check do not)
 			if s.mode == "sign" {
 				hdr := 1 + 1 + len(s.name) + 4 // format, name length, name, date
-				for k, cp := range contentPositions(d, p) {
-					if k >= hdr {
-						break
-					}
-					if cp == pos && k != 1 {
-						return "literal-metadata"
-					}
+				cps := contentPositions(d, p)
+				lastMeta := p.end - 1
+				if len(cps) >= hdr {
+					lastMeta = cps[hdr-1]
+				}
+				if pos > p.start && pos <= lastMeta {
+					return "literal-metadata"
 				}
 			}
 		case 2: // signature packet of an unencrypted signed message: MPI bit counts, unhashed area, and the
